@@ -189,6 +189,11 @@ def _run_diagonalize(case, T, rng, g, dtype, base):
         shapes.insert(rng.randrange(len(shapes) + 1), rng.choice([(0,), (2, 0)]))
     keys = [_rand(g, s, dtype) for s in shapes]
     grads = {k: _rand(g, k.shape, dtype) for k in _shuffled(rng, keys)}
+    if rng.random() < 0.3:
+        # non-finite gradient entries (an overflowed loss among several): the rows of the OTHER scalars still hold exact zeros there
+        for k in keys:
+            if k.numel() and rng.random() < 0.6:
+                grads[k].reshape(-1)[rng.randrange(k.numel())] = rng.choice([float("inf"), float("-inf"), float("nan")])
     order = _shuffled(rng, keys)
     tr = T.Diagonalize(order)
     if rng.random() < 0.5:
@@ -206,7 +211,7 @@ def _run_diagonalize(case, T, rng, g, dtype, base):
             want[off + e, e] = gv[e]
         want = want.reshape((R,) + tuple(k.shape))
         got = res[k]
-        if tuple(got.shape) != want.shape or not np.array_equal(_np(got), want):
+        if tuple(got.shape) != want.shape or not np.array_equal(_np(got), want, equal_nan=True):
             return _fail(base, "C15.Diagonalize",
                          f"Diagonalize: block of key #{[id(x) for x in order].index(id(k))} (shape {tuple(k.shape)}, "
                          f"row offset {off}) is not its gradient entries on its own rows and zeros elsewhere",
@@ -446,6 +451,10 @@ def _run_tensordict(case, T, rng, g, dtype, base):
 def _setup_diff(case, rng, g, dtype):
     inputs = [_rand(g, s, dtype).requires_grad_(True) for s in case["shapes"]]
     outputs = connect(rng, g, inputs, case["out_shapes"], dtype)
+    if rng.random() < 0.3:
+        # a LEAF listed among the outputs (it is also an input): its own rows of the Jacobian are identity rows, on top of what the
+        # other outputs contribute
+        outputs.insert(rng.randrange(len(outputs) + 1), rng.choice(inputs))
     return inputs, outputs
 
 
